@@ -534,6 +534,12 @@ def run_cases(ctx, cases, exes, drv, flavours):
         for fl in flavours[1:]:
             o = outs[fl][0][i]
             if o is not None and not o.startswith("<crash") and o != ref[i] and ref[i] is not None and not ref[i].startswith("<crash"):
+                # the floating-point IDCT is not bit-exact between the SIMD and the C build: only the scheduling
+                # observations and the pixel verdict are compared across builds for JDCT_FLOAT
+                if not is_tj and line.split("|")[1].split()[2] == "2":
+                    ca, cb = canon_impl(o), canon_impl(ref[i])
+                    if ca[0] == cb[0] and (ca[2] or "")[:2] == (cb[2] or "")[:2]:
+                        continue
                 ctx.violation("builds disagree (%s vs %s)" % (flavours[0], fl), {"case": rline, flavours[0]: ref[i][:800], fl: o[:800]},
                               signature=(HAZ[5] if hz == 5 else "build-disagree:" + ("tj" if is_tj else "lib")))
         # ---- model correspondence ----
